@@ -242,7 +242,13 @@ func c08Gen(r *rand.Rand, n int, tier string) []string {
 	var out []string
 	for i := 0; i < n; i++ {
 		clock := int64(100)
-		tick := func() int64 { clock += 2; return clock }
+		// non-decreasing time stamps: 1 step in 8 repeats the previous stamp (a tie between different points)
+		tick := func() int64 {
+			if r.Intn(8) != 0 {
+				clock += 2
+			}
+			return clock
+		}
 		nt := func(t string) string { return fmt.Sprintf("%s,-,0,%s,%d,0,-,-", hxs("nodeType"), hxs(t), tick()) }
 		var tree []string
 		// client node c under G (sometimes under an inner group), children k1 k2 (vchild), grandchild gk,
